@@ -146,6 +146,14 @@ def cl_enc_oracle(case, impl):
     return None
 
 
+def ffi_finding_key(case, impl, model):
+    """open findings of the C ABI, by call site"""
+    t = case.split()
+    if len(t) > 3 and t[0] == "ffi" and t[1] == "op" and t[3] == "qfull" and "TooManyRequests,Shutdown" in impl:
+        return "F10-queue-full-shutdown"
+    return None
+
+
 LIFE_NEXT = {
     "Disabled": {"Connecting", "Shutdown"},
     "Connecting": {"Connected", "WaitFail", "Disabled", "Shutdown"},
@@ -314,7 +322,10 @@ PROPS = {
                 dict(gen="fltm", n=(3000, 200000),
                      exhaustive="all 4^4 wildcard patterns over {*,0,127,255} x 5 peers (3^4+1 peers thorough)"),
                 dict(gen="net", n=(40, 1000), jobs=16,
-                     exhaustive="{tcp,tls,tls+authz} x 11 filters x 4 loopback source addresses; IPv6 loopback peers")],
+                     exhaustive="{tcp,tls,tls+authz} x 11 filters x 4 loopback source addresses; IPv6 loopback peers"),
+                dict(gen="ffi_flt", n=(300, 3000), harness="ffi"),
+                dict(gen="ffi_fnet", n=(40, 290), harness="ffi", jobs=8,
+                     exhaustive="C ABI server constructors {tcp, tls, tls+authz} x matching / non-matching filters x loopback source addresses")],
         level_text="Proof: matches_spec (AddressFilter::matches decides exactly the declarative meaning for every filter and peer; IPv6 never "
                    "matches a wildcard), wildcard_parse_iff (a string parses iff it splits on '.' into exactly four fields each '*' or a numeral "
                    "accepted by u8::from_str, and the result is their meaning), parsed_fields_are_octets, splitDots_join/no_dot. Tie: the Rust "
@@ -579,5 +590,59 @@ PROPS = {
              "exception, or a grammar-aware perturbation (function byte, truncation, extension, byte count, coil encoding, bit flip, echo "
              "mismatch, empty, random), whole or split in two deliveries; distinct = distinct case line; non-trivial = the request completed",
         assumptions=["RTU replies are generated so that the response parser delimits them (otherwise they are framing errors, C06)"],
+    ),
+    "C18": dict(
+        harness="ffi",
+        audit_modules=["RodbusModel.Audit.C18"],
+        required_theorems=["Rodbus.C18.error_table", "Rodbus.C18.exception_table", "Rodbus.C18.state_tables", "Rodbus.C18.decode_tables",
+                           "Rodbus.C18.serial_tables", "Rodbus.C18.tls_enum_tables", "Rodbus.C18.write_result_conversion",
+                           "Rodbus.C18.write_callbacks_use_conversion", "Rodbus.C18.forwards_filter", "Rodbus.C18.callbacks_wrapped_first",
+                           "Rodbus.C18.callback_exactly_once", "Rodbus.C18.exception_roundtrip", "Rodbus.C18.pass_through"],
+        suites=[dict(gen="ffi_tab", n=(300, 4000), exhaustive="every variant of every enum crossing the boundary; all 256 exception bytes; all 36 decode levels"),
+                dict(gen="ffi_wres", n=(60, 1100), jobs=8, exhaustive="4 write functions x {success, each standard exception, raw codes}"),
+                dict(gen="ffi_op", n=(120, 3800), jobs=8)],
+        level_text="Proof over tables REGENERATED from the FFI sources on every run (helpers/conversions.rs, helpers/ext.rs, client.rs, server.rs): "
+                   "error_table, exception_table, state_tables, decode_tables, serial_tables, tls_enum_tables, param_error_table (every variant maps "
+                   "to its same-named counterpart), write_result_conversion + write_callbacks_use_conversion (all four write callbacks return "
+                   "convert_to_result), forwards_filter (every server constructor forwards the caller's filter), pass_through / client_forward "
+                   "(arguments forwarded unchanged), callbacks_wrapped_first + callback_exactly_once (for every submission outcome the completion "
+                   "callback fires exactly once), exception_roundtrip (all 256 exception bytes reach the C callback as the error named after them). "
+                   "Tie: the real extern \"C\" functions are driven end to end over loopback (runtime, device map, server, client channel created "
+                   "through the C ABI; callbacks counted) and compared with the model and with the Rust API on the same scenario.",
+        level_note="Open finding F10 (FfiChannel try_send on a full queue completes the callback with Shutdown while the task is alive; no suitable "
+                   "error variant exists) is listed in KNOWN_FINDINGS.txt. Findings F5, F6, F9 are fixed. Timeouts and no-connection scenarios "
+                   "use real time (tolerances of a few hundred ms). Trusted: translator heuristics for the FFI sources, harness-ffi.",
+        technique="Lean 4 decide-proofs over tables generated from the FFI sources + end-to-end runs through the extern C functions",
+        classify=lambda c, i: [" ".join(c.split(" ")[1:3])],
+        nontrivial=lambda c, i: True,
+        finding_key=ffi_finding_key,
+        rule="ffi_tab: every conversion reachable from outside the crate on every variant; ffi_wres / ffi_op: all operations x provoked outcomes "
+             "(success, each exception, timeout, no connection, shutdown, queue full, bad range, null pointers) + seeded random ones; every case "
+             "is non-trivial; distinct = distinct case line",
+        assumptions=["loopback TCP; real-time tolerances"],
+    ),
+    "C19": dict(
+        harness="ffi",
+        audit_modules=["RodbusModel.Audit.C19"],
+        required_theorems=["Rodbus.C19.db_refines_map", "Rodbus.C19.absent_point_exception_02", "Rodbus.C19.transaction_atomic",
+                           "Rodbus.C19.read_sees_whole_transactions", "Rodbus.C19.tables_independent"],
+        suites=[dict(gen="ffi_db", n=(150, 3200), jobs=8), dict(gen="ffi_atomic", n=(1, 4), jobs=4)],
+        level_text="Proof: db_refines_map (for every op sequence over the four point types the results of add/update/delete/get equal those of the "
+                   "abstract per-type map: add succeeds iff absent, update/delete iff present, get fails iff absent; tables independent) by "
+                   "induction over the op list; absent_point_exception_02 (a read touching an absent point is answered with exception 02 after "
+                   "querying only the ascending prefix); transaction_atomic / read_sees_whole_transactions (under the modelling hypothesis that a "
+                   "transaction and the serving of a client request each hold the handler mutex, every schedule is serialisable: a reply equals "
+                   "reading a state produced by whole transactions); database_tables (generated: the 16 database functions use the right map, the "
+                   "transaction callback runs under the lock). Tie: op sequences through the extern \"C\" database functions inside "
+                   "server_update_database on a live server, interleaved with client reads; thread stress run for atomicity.",
+        level_note="Partial: that the real code holds the handler mutex across the whole reply and the whole transaction is a fact about lock scopes "
+                   "in Rust; the model assumes it (stated as hypothesis) and the stress run samples it.",
+        technique="Lean 4 map-refinement induction + lock-model serialisability proof + differential runs through the C ABI + stress sampling",
+        classify=lambda c, i: [c.split(" ")[1]],
+        nontrivial=lambda c, i: True,
+        finding_key=ffi_finding_key,
+        rule="ffi_db: seeded op sequences over a small index set interleaved with client reads; ffi_atomic: concurrent whole-block transactions "
+             "vs. block reads; distinct = distinct case line",
+        assumptions=["loopback TCP"],
     ),
 }
